@@ -712,6 +712,31 @@ def rule_r3_descriptor_reaches_storage(ck, prog, rule='C19.R3'):
                                 break
                         if m['k'] == 'ref' and 'InstrumentDescriptor' in (m.get('t') or ''):
                             written.add(m['id'])
+                    # ... or that are initialised by a helper which is handed the view and writes name_ / description_ of the
+                    # descriptor it returns (summary of the helper: both fields stored into an InstrumentDescriptor local)
+                    for n in lf.nodes:
+                        if n['k'] != 'declstmt':
+                            continue
+                        for d in n['decls']:
+                            if 'InstrumentDescriptor' not in (d.get('t') or '') or d.get('init') is None or d['init'] < 0:
+                                continue
+                            init = strip_casts(lf, d['init'])
+                            while init['k'] == 'construct' and init.get('copymove') and init.get('args'):
+                                init = strip_casts(lf, init['args'][0])
+                            h = prog.funcs.get(init.get('ck')) if init['k'] == 'call' else None
+                            if h is None or not any('View' in (lf.nodes[a].get('t') or '') for a in init.get('args', []) if a is not None and a >= 0):
+                                continue
+                            flds = set()
+                            for m in h.nodes:
+                                lhs = m['lhs'] if (m['k'] == 'binop' and m['op'] == '=') else (m.get('obj') if (m['k'] == 'call' and m.get('op') == '=') else None)
+                                if lhs is None:
+                                    continue
+                                t = strip_casts(h, lhs)
+                                if t['k'] == 'member' and t['name'] in ('name_', 'description_') and t.get('base') is not None and \
+                                        'InstrumentDescriptor' in (strip_casts(h, t['base']).get('t') or ''):
+                                    flds.add(t['name'])
+                            if flds == {'name_', 'description_'}:
+                                written.add(d['id'])
                     for n in cons:
                         descs = [strip_casts(lf, a) for a in n.get('args', []) if a is not None and a >= 0 and 'InstrumentDescriptor' in (lf.nodes[a].get('t') or '')]
                         cnt += 1
